@@ -48,8 +48,11 @@ def run_case(case):
     rng = random.Random(case["stim_seed"])
     dw, gran = case["data_width"], case["granularity"]
     nsel = dw // gran
+    container = rng.choice(["list", "list", "tuple", "generator", "map", "iter"])
+    init_arg = {"list": lambda v: list(v), "tuple": lambda v: tuple(v), "generator": lambda v: (x for x in v),
+                "map": lambda v: map(int, v), "iter": lambda v: iter(v)}[container](case["init"])
     dut = WishboneSRAM(size=case["size"], data_width=dw, granularity=gran,
-                       writable=case["writable"], init=case["init"])
+                       writable=case["writable"], init=init_arg)
     bus = dut.wb_bus
     depth = case["size"] * gran // dw
     aw = len(bus.adr)
@@ -151,6 +154,7 @@ def run_case(case):
     summary["stim"] = case["stim_seed"]
     mon.count("cycles", mon.cycle + 1)
     mon.bin("geometry", (dw, gran, case["size"], case["writable"]))
+    mon.bin("init_container", container)
     return mon.result(nontrivial=state["nontrivial"], summary=summary)
 
 LEVEL_TEXT = ("Online trace monitor over simulations of the real WishboneSRAM with every bus input random on every "
